@@ -104,6 +104,18 @@ func main() {
 		*tmp = d
 		defer os.RemoveAll(d)
 	}
+	// relative paths the harness hands to the library (Markdown sources converted from files) are relative to this
+	// process's private scratch directory
+	for _, fp := range []*string{file, outFile, tmp} {
+		if *fp != "" {
+			if a, err := filepath.Abs(*fp); err == nil {
+				*fp = a
+			}
+		}
+	}
+	if err := os.MkdirAll(*tmp, 0o755); err == nil {
+		_ = os.Chdir(*tmp)
+	}
 	if pf := os.Getenv("VERIF_CPUPROFILE"); pf != "" { // development aid
 		if f, err := os.Create(pf); err == nil {
 			pprof.StartCPUProfile(f)
